@@ -7,6 +7,7 @@ import (
 	"fmt"
 	"sort"
 	"strconv"
+	"strings"
 	"sync"
 	"time"
 
@@ -49,6 +50,7 @@ type Step struct {
 	D        time.Duration // expire / lease duration, lock timeout
 	Deadline time.Duration // lock deadline
 	Delta    int           // incr/decr delta; incrf: delta in 1/Fixed units
+	Mixed    bool          // incr/decr on a key that also sees IncrByFloat: recorded in 1/Fixed units and marked as an integer operation
 	Ms       bool
 	At       time.Duration // if > 0: do not start before this much time has passed since the scenario began
 	Slot     int           // lock handle slot used by lock/unlock/lease of this client
@@ -205,14 +207,29 @@ func (r *Recorder) step(ctx context.Context, dm string, sc Script, st Step, slot
 		inv["op"], inv["v"] = "getput", st.Val
 		r.append(inv)
 		rep = sc.Path.GetPut(ctx, dm, st.Key, st.Val)
-	case "incr":
-		inv["op"], inv["d"] = "incr", st.Delta
+	case "incr", "decr":
+		d := st.Delta
+		if st.Op == "decr" {
+			d = -d
+		}
+		if st.Mixed {
+			inv["int"] = true
+			d *= Fixed
+		}
+		inv["op"], inv["d"] = "incr", d
 		r.append(inv)
-		rep = sc.Path.Incr(ctx, dm, st.Key, st.Delta)
-	case "decr":
-		inv["op"], inv["d"] = "incr", -st.Delta
-		r.append(inv)
-		rep = sc.Path.Decr(ctx, dm, st.Key, st.Delta)
+		if st.Op == "incr" {
+			rep = sc.Path.Incr(ctx, dm, st.Key, st.Delta)
+		} else {
+			rep = sc.Path.Decr(ctx, dm, st.Key, st.Delta)
+		}
+		if st.Mixed {
+			if rep.Ret == "num" {
+				rep.N *= Fixed
+			} else if strings.Contains(rep.Err, "invalid syntax") || strings.Contains(rep.Err, "not an integer") {
+				rep.Ret = "notint" // the stored number is not an integer: refused, nothing changed
+			}
+		}
 	case "incrf":
 		inv["op"], inv["d"] = "incr", st.Delta
 		r.append(inv)
